@@ -37,6 +37,24 @@ from ..x_taint import detects_all, expr_tainted, raise_after_mutation
 from ..x_flow import resolve_local, expand_locals
 from ..x_sites import method_calls
 
+from ..x_http import norm_func
+
+# private helpers that the rules model by name (sanitisers / summarised effects) and therefore must stay calls
+KEEP_CALLS = {"_format_chunk", "_convert_header_value", "_clear_representation_headers", "_can_keep_alive", "_compressible_type",
+              "_on_write_complete", "_finish_request", "_clear_callbacks"}
+
+
+def F(ck, relpath, qualname):
+    """The anchored function with its private same-file helpers inlined (function splitting is followed, depth 3)."""
+    fi = ck.func(relpath, qualname)
+    try:
+        return norm_func(ck.repo, fi, depth=3, no_inline=KEEP_CALLS)
+    except AnalysisError:
+        raise
+    except Exception as e:  # the normaliser must never turn into a verdict
+        raise AnalysisError("cannot normalise %s: %r" % (qualname, e))
+
+
 TECHNIQUE = "flow-sensitive taint to the morsel stores with automaton-decided regex guards; typestate for delete-before-set and emit-before-write; who-may-write on the cookie jar"
 EXPLANATION = (
     "RequestHandler.set_cookie is analysed with a path-sensitive forward taint from its text-typed parameters to every store into the "
@@ -85,7 +103,7 @@ def check_set_cookie(ck):
 
 
 def check_separator_agreement(ck, loops):
-    pc = ck.func(HU, "parse_cookie")
+    pc = F(ck, HU, "parse_cookie")
     ps = pc.params()
     if not ps:
         raise AnalysisError("parse_cookie has no parameter")
@@ -195,7 +213,7 @@ def check_refuse_before_mutate(ck, fi):
     is_raise = lambda n: n.kind == "stmt" and isinstance(n.ast, ast.Raise)
     delegating = lambda n: n.kind == "stmt" and any(q.is_call(c, "self.set_cookie", "self.clear_cookie") for c in q.calls(n.ast))
     for nm in ("clear_cookie", "set_signed_cookie", "clear_all_cookies"):
-        sib = ck.func(WEB, RH + "." + nm)
+        sib = F(ck, WEB, RH + "." + nm)
         late = {r.id for r, _m in raise_after_mutation(sib.cfg, delegating, is_raise)}
         for r in sib.cfg.stmt_nodes(is_raise):
             ck.ob("C25.refuse-before-mutate", sib, r.ast, r.id not in late, "%s rejects its arguments before it starts setting cookies" % nm)
@@ -304,7 +322,7 @@ def check_attr_table(ck, fi):
 
 
 def check_emit(ck):
-    fl = ck.func(WEB, RH + ".flush")
+    fl = F(ck, WEB, RH + ".flush")
     cfg = fl.cfg
     loops = cfg.stmt_nodes(lambda n: n.kind == "for" and JAR in q.paths_in(n.ast.iter))
     ck.floor("C25.emit", len(loops), 1, "loops over self._new_cookie in flush")
@@ -337,16 +355,31 @@ def check_emit(ck):
             ck.ob("C25.emit", fl, c, ok, "on every path to write_headers the cookies were emitted, unless no cookie was ever set", construct="header block written before the cookies are emitted")
 
 
+def _only_reached_from_set_cookie(ck, fi, depth=3) -> bool:
+    """fi is set_cookie, or a private method all of whose uses in web.py are calls from such functions."""
+    from ..rules import callers_of, references_to
+
+    if fi.name == "set_cookie" and fi.qualname == RH + ".set_cookie":
+        return True
+    if depth <= 0 or not fi.name.startswith("_") or fi.name.startswith("__"):
+        return False
+    calls = callers_of(ck.repo, fi.name, [WEB])
+    refs = references_to(ck.repo, fi.name, [WEB])
+    if not calls or len(refs) != len(calls):
+        return False  # unused, or handed around as a callback
+    return all(cfi.qualname != fi.qualname and _only_reached_from_set_cookie(ck, cfi, depth - 1) for cfi, _c in calls)
+
+
 def check_funnel(ck):
     n = 0
     for fi in ck.repo.methods(WEB, RH):
         writes = [st for st in q.walk_body(fi.node) if isinstance(st, (ast.Assign, ast.AnnAssign, ast.AugAssign, ast.Delete)) and any(p.rstrip("[]") == JAR for p in q.assigned_paths(st))]
         for st in writes:
             n += 1
-            ck.ob("C25.funnel", fi, st, fi.name == "set_cookie", "the cookie jar is written only by set_cookie (so every cookie passes its validation)")
+            ck.ob("C25.funnel", fi, st, _only_reached_from_set_cookie(ck, fi), "the cookie jar is written only by set_cookie or a private helper that nothing but set_cookie calls (so every cookie passes its validation)")
     ck.floor("C25.funnel", n, 2, "writes to self._new_cookie")
     for nm in ("clear_cookie", "set_signed_cookie"):
-        fi = ck.func(WEB, RH + "." + nm)
+        fi = F(ck, WEB, RH + "." + nm)
         ps = [p for p in fi.params() if p != "self"]
         kw = fi.node.args.kwarg.arg if fi.node.args.kwarg else None
         cs = call_sites(fi, "self.set_cookie")
@@ -472,6 +505,7 @@ MUTANTS = [
     ("expires_days overrides an explicit expires", _in(WEB, RH + ".set_cookie", replace_expr(lambda n: isinstance(n, ast.BoolOp) and "expires_days is not None" in _u(n) and "not expires" in _u(n), lambda n: n.values[0])), "C25.attr-table"),
     ("max-age taken from expires_days", _in(WEB, RH + ".set_cookie", replace_expr(lambda n: q.is_call(n, "str") and _u(n) == "str(max_age)", lambda n: parse_expr("str(expires_days)"))), "C25.attr-table"),
     ("samesite stored only for secure cookies", _in(WEB, RH + ".set_cookie", replace_expr(lambda n: isinstance(n, ast.Name) and n.id == "samesite" and isinstance(n.ctx, ast.Load) and False, lambda n: n) if False else (lambda root: _samesite_needs_secure(root))), "C25.attr-table"),
+    ("only str attributes validated, bytes attributes decoded and stored (seeded C25-adv3)", _in(WEB, RH + ".set_cookie", lambda root: _bytes_bypass(root)), "C25.attr-validated"),
     ("existing morsel not deleted before re-set", _in(WEB, RH + ".set_cookie", remove_stmts(lambda st: isinstance(st, ast.If) and "in self._new_cookie" in _u(st.test) and not isinstance(st.test, ast.UnaryOp))), "C25.last-wins"),
     ("delete-before-set only for secure cookies", _in(WEB, RH + ".set_cookie", replace_expr(lambda n: isinstance(n, ast.Compare) and _u(n) == "name in self._new_cookie", lambda n: parse_expr("name in self._new_cookie and secure"))), "C25.last-wins"),
     ("Set-Cookie emitted with set_header (only the last cookie survives)", _in(WEB, RH + ".flush", replace_expr(lambda n: isinstance(n, ast.Attribute) and n.attr == "add_header", lambda n: ast.Attribute(value=n.value, attr="set_header", ctx=ast.Load()))), "C25.emit"),
@@ -553,3 +587,9 @@ def _samesite_needs_secure(root):
             st.test = parse_expr("samesite and secure")
             return True
     return False
+
+
+def _bytes_bypass(root):
+    ok1 = replace_expr(lambda n: isinstance(n, ast.Compare) and _u(n) == "attr_value is not None", lambda n: parse_expr("isinstance(attr_value, str)"))(root)
+    ok2 = replace_stmt(lambda st: isinstance(st, ast.Assign) and _u(st) == "morsel['domain'] = domain", lambda st: [parse_stmt("morsel['domain'] = escape.native_str(domain)")])(root)
+    return bool(ok1 and ok2)
